@@ -768,7 +768,7 @@ def run(out, ctx):
                 "tree), Module.named_added_loss_terms and the objective's named_priors are compared exactly with named_added / named_priors of the tree; VariationalELBO "
                 "and PredictiveLogLikelihood both compared.  bound family: full batch, beta=1: N*ELBO(q) vs model, "
                 "N*ELBO <= exact log marginal likelihood, collapsed bound <= exact, ELBO(q*) = collapsed bound (q* set in the "
-                "implementation), one NGD step of size one from the random q lands on the collapsed bound in EVERY optimiser set-up of " + ", ".join(NGD_CONFIGS) + " (several parameter "
+                "implementation), one NGD step of size one from the random q lands on the collapsed bound in EVERY optimiser set-up of NGD_CONFIGS (plain, several parameter "
                 "groups, per-group lr, parameters without gradient before / between / after the natural parameters, a frozen parameter first, NGD + Adam hybrid loop, one NGD "
                 "shared by two models with only one ELBO back-propagated - the other model's parameters must not move).  BATCHED models (a batch of "
                 "sparse GPs in one ApproximateGP, batch shapes (2), (3), thorough also (2,2)): the batch shape on kernel+mean+inducing points+q(u) / on q(u) only / on the inputs "
